@@ -39,7 +39,7 @@ PID = "C07"
 LIMIT = 1            # configured limit in seconds (os.time() has 1 s granularity)
 BOUND = 2.5          # aborted in-band no later than LIMIT + BOUND (1 granule + hook period + scheduling)
 KILL = 6.0           # hard kill LIMIT + KILL seconds after the start of the invocation
-DEVS = ["PcallCatchesTimeout", "CoroutineNoHook", "HookControlExported", "NestedInvokeResetsHook"]
+DEVS = ["PcallCatchesTimeout", "CoroutineNoHook", "HookControlExported", "NestedInvokeResetsHook", "NestedTimeoutInBand"]
 MAXEV = 14           # events reported per run (a prefix of the real behaviour)
 
 BODY = {
@@ -47,6 +47,14 @@ BODY = {
     "lib": "while true do local s = string.rep('x', 3) local n = string.len(s) .. string.upper(s) end",
     "tailrec": "local function r(n) return r(n + 1) end\nr(1)",
     "deeprec": "local function r(n) return 1 + r(n + 1) end\nr(1)",
+    # a loop that keeps making benign nested invocations: the count hook practically always fires inside one
+    "invloop": "while true do local v = frame:preprocess('{{#invoke:c07ben|f}}') end",
+}
+# wrappers whose INNER runs in a NESTED invocation of function n<i> of the same module, and how it is reached
+NESTED = {
+    "ninv": "frame:preprocess('{{{{#invoke:{m}|n{i}}}}}')",
+    "ninvt": "frame:expandTemplate{{ title = '{m}_n{i}' }}",       # Template:<m>_n<i> = {{#invoke:<m>|n<i>}}
+    "ninvx": "frame:extensionTag('span', '{{{{#invoke:{m}|n{i}}}}}')",
 }
 
 
@@ -77,10 +85,26 @@ def wrap_code(w: str, inner: str, i: int) -> str:
     raise ValueError(w)
 
 
-def render(body: str, wrap: list[str]) -> str:
+def lua_function(name: str, code: str) -> str:
+    return (f"function p.{name}(frame)\n"
+            "local okc, colib = pcall(require, 'coroutine')\n"
+            + code + "\ndo return 'done' end\nend\n")
+
+
+def render(body: str, wrap: list[str], name: str = "c07p0") -> str:
+    """One module per program.  A wrapper of NESTED cuts the program: INNER becomes function n<i> of the
+    module, the enclosing code reaches it through Python (a nested call_lua_sandbox) and reports what came back."""
     code = BODY[body]
+    fns = []
     for i in range(len(wrap), 0, -1):
-        code = wrap_code(wrap[i - 1], code, i)
+        w = wrap[i - 1]
+        if w in NESTED:
+            fns.append(lua_function(f"n{i}", code))
+            code = (f"ev('enter', {i}, '{w}')\n"
+                    f"local r{i} = " + NESTED[w].format(m=name, i=i) + "\n"
+                    f"ev('nret', {i}, nres(r{i}))")
+        else:
+            code = wrap_code(w, code, i)
     return (
         "local p = {}\n"
         "local nev = 0\n"
@@ -89,11 +113,20 @@ def render(body: str, wrap: list[str]) -> str:
         "  nev = nev + 1\n"
         "  mw_python_get_page_content('c07ev|' .. what .. '|' .. i .. '|' .. tostring(x), 0)\n"
         "end\n"
-        "function p.main(frame)\n"
-        "local okc, colib = pcall(require, 'coroutine')\n"
-        + code
-        + "\ndo return 'done' end\nend\nreturn p\n"
+        "local function nres(r)\n"
+        "  r = tostring(r)\n"
+        "  if string.find(r, 'Lua timeout error', 1, true) then return 'timeout' end\n"
+        "  if string.find(r, 'Lua execution error', 1, true) then return 'lua' end\n"
+        "  return 'ok'\n"
+        "end\n"
+        + lua_function("main", code)
+        + "".join(reversed(fns))
+        + "return p\n"
     )
+
+
+def nested_templates(wrap: list[str], name: str) -> dict:
+    return {f"{name}_n{i}": "{{#invoke:%s|n%d}}" % (name, i) for i, w in enumerate(wrap, start=1) if w == "ninvt"}
 
 
 BEN = "local p = {} function p.f(frame) return 'ben' .. (frame.args[1] or '') end return p"
@@ -118,8 +151,9 @@ def child(progs, d: str, conn):
     class RecWtp(Wtp):
         def get_page_body(self, title, namespace_id):
             if isinstance(title, str) and title.startswith("c07ev|"):
-                events.append(title.split("|", 3)[1:])
-                conn.send(("ev", events[-1]))  # also streamed: a killed run keeps its prefix
+                if len(events) < MAXEV:  # (the counter of the module is per load of the module)
+                    events.append(title.split("|", 3)[1:])
+                    conn.send(("ev", events[-1]))  # also streamed: a killed run keeps its prefix
                 return None
             return super().get_page_body(title, namespace_id)
 
@@ -129,8 +163,11 @@ def child(progs, d: str, conn):
     mods = {"ustring:ustring": luafix.USTRING_STUB, "libraryUtil": luafix.LIBRARYUTIL_STUB, "c07ben": BEN}
     mods.update(luafix.SMOKE_MODULES)
     for k, p in enumerate(progs):
-        mods[pname(k)] = render(p["body"], p["wrap"])
+        mods[pname(k)] = render(p["body"], p["wrap"], pname(k))
     luafix.add_modules(ctx, mods)
+    for k, p in enumerate(progs):
+        for name, body in nested_templates(p["wrap"], pname(k)).items():
+            ctx.add_page("Template:" + name, 10, body=body)
     for name, body in luafix.SMOKE_TEMPLATES.items():
         ctx.add_page("Template:" + name, 10, body=body)
     ctx.db_conn.commit()
@@ -256,7 +293,9 @@ def obs_class(cls):
 
 
 def load_programs(o, thorough):
-    cfgs = ["Gen_LuaTimeout_Q.cfg"] + (["Gen_LuaTimeout_T2.cfg", "Gen_LuaTimeout_T3.cfg"] if thorough else [])
+    # Q: every body x wrapper lists up to length 1; QN: wrapper lists of length 2 with a nested invocation in them
+    # (where the non-terminating code runs: under / above a protected call, a catch-and-continue loop, a coroutine)
+    cfgs = ["Gen_LuaTimeout_Q.cfg", "Gen_LuaTimeout_QN.cfg"] + (["Gen_LuaTimeout_T2.cfg", "Gen_LuaTimeout_T3.cfg"] if thorough else [])
     cases = {}
     for cfg in cfgs:
         r = tlc("Gen_LuaTimeout", cfg, workers=1, timeout=900)
@@ -291,6 +330,11 @@ def judge(o, c, run, follow, fresh, where, recheck=None):
             "error": "ended with an ordinary Lua error element",
             "aborted": "aborted by the time limit",
         }[real]
+        inband = sorted({int(e[1]) for e in (run["events"] or []) if e[0] == "nret" and len(e) > 2 and e[2] == "timeout"})
+        if inband:
+            why += (f"; the time limit struck inside the nested invocation made at wrapper {inband[0]} ({c['wrap'][inband[0] - 1]}): it came back to the "
+                    "enclosing module as the in-band 'Lua timeout error' element of the nested function and the enclosing module carried on")
+            case["nested_timeout_in_band_at_wrapper"] = inband
         if dev is None:
             o.violation(case, f"{key(c)}: {why}; demanded: {want}; no modelled deviation predicts this", cls="unexplained:" + real)
         else:
@@ -466,7 +510,8 @@ def run(tier: str) -> int:
     o.assumptions = [
         f"limit {LIMIT} s, in-band abort accepted up to {LIMIT}+{BOUND} s (os.time() granularity 1 s + one hook period + scheduling), hard kill at {LIMIT}+{KILL} s = hung",
         "100000 Lua instructions take far less than one clock granule (Tick gating in LuaTimeout)",
-        "offline stand-ins for ustring/libraryUtil; nested #invoke through frame:preprocess",
+        "offline stand-ins for ustring/libraryUtil; nested #invoke through frame:preprocess, frame:expandTemplate of a template that invokes, "
+        "frame:extensionTag with wikitext content (frame:callParserFunction('#invoke', ..) does not run the module in this library: it returns the call unexpanded)",
     ]
     # ---- M
     for name, cfg, kw in (
@@ -478,14 +523,15 @@ def run(tier: str) -> int:
         if kw:
             o.extra["action_coverage"] = luafix.coverage_actions(r.out)
     if thorough:
-        for d in ("Pcall", "Co", "HookCtl", "Nested"):
+        for d in ("Pcall", "Co", "HookCtl", "Nested", "InBand"):
             r = tlc("MC_LuaTimeout", f"MC_LuaTimeout_dev{d}_T.cfg", workers=16, timeout=1500)
             o.add_tlc("MC_dev" + d, r)
     never = [a for a in ('Invoke', 'Enter', 'Step', 'HookFires', 'Tick', 'Unwind', 'Ret') if not o.extra["action_coverage"].get(a)]
     if never:
         raise common.TLCError(f"actions never taken in the model-checking runs (vacuity): {never}")
     demos = {}
-    for name, inv in (("pcall_survives", True), ("loop_escape", True), ("pcall_loop", False), ("coroutine", False), ("hookctl", False), ("nested", False)):
+    for name, inv in (("pcall_survives", True), ("loop_escape", True), ("pcall_loop", False), ("coroutine", False), ("hookctl", False), ("nested", False),
+                      ("nested_inband", True), ("nested_inband_loop", False), ("nested_inband_invloop", False)):
         r = tlc("MC_LuaTimeout", f"Demo_LuaTimeout_{name}.cfg", workers=1, check=False)
         bad = bool(r.invariant_violated) if inv else bool(re.search(r"Temporal propert(y|ies) .*violated", r.out))
         demos[name] = bad
@@ -586,6 +632,8 @@ def abstract_events(c, run, real):
             evs.append({"e": "enter", "i": i, "x": x})
         elif what == "caught":
             evs.append({"e": "caught", "i": i, "x": "timeout" if "Lua timeout error" in x else "lua"})
+        elif what == "nret":
+            evs.append({"e": "nret", "i": i, "x": x})
     complete = run["cls"] != "hung" and len(run["events"] or []) < MAXEV
     if complete and real in ("aborted", "error", "returned"):
         evs.append({"e": "done", "i": 0, "x": real})
